@@ -38,6 +38,12 @@ CHECKS = {
   "generated variables with exactly the generated text, execute nothing and create no canary. Held on the strings generated, not a proof over all strings.",
   "Trusts dash, bash and strace; NUL-free valid UTF-8 only; names the shell treats specially are checked syntactically only.",
   "DESIGN.md §5 C17"),
+ "C09": ("exploration",
+  "metamorphic parser monitor: minimal-parenthesis vs fully parenthesised vs layout-varied spellings of generated ASTs must parse to the same tree and evaluate to the same bytes; broken token lists must be rejected; live precedence table == frozen table (verif hook)",
+  "Every ordered pair of binary operators (882-cell matrix) is forced through the real lexer, shunting-yard and tree builder; trees are compared modulo re-association of "
+  "associative chains, results on three documents, and single-token mutations (bracket removed/duplicated/swapped, operand removed) must give a parse error. Held on the expressions generated.",
+  "Nothing is asserted about how equal-precedence different operators group (the property is silent); layout is varied only at token boundaries the lexer rules make unambiguous (listed in the evidence assumptions).",
+  "DESIGN.md §5 C09"),
  "C11": ("exploration",
   "recover()/journal/CPU-watchdog monitor over seeded expression x input x format fuzz workloads, plus a -race/checkptr slice",
   "Every case runs the real parser, decoders, operators, printer and encoders in a child worker; a recovered panic, a fatal runtime "
